@@ -239,6 +239,20 @@ func genC17(g *Gen, tier string) *Program {
 					sort.Strings(ks)
 					name += "_k" + strings.Join(ks, "")
 				}
+				if !conflict && g.Bool(12) {
+					// the vocabularies of names and of label names overlap: a counter
+					// called like one tag key, on a scope whose (only) own tag is the other
+					// one - always that pairing, so the name still has one kind and one set
+					// of label names
+					nm := pick(g, "zone", "host_id")
+					other := map[string]string{"zone": "host_id", "host_id": "zone"}[nm]
+					for _, cand := range scopes {
+						if keysOf[cand] == keysOf[0]+"_"+other {
+							kind, name, sv = "counter", nm, cand
+							break
+						}
+					}
+				}
 				op := Op{K: kind, S: sv, M: nextM, Name: name}
 				var spec *BucketSpec
 				if kind == "hist" {
